@@ -416,6 +416,12 @@ class IrToPythonCompiler:
             self.gen_store(ins)
         elif isinstance(ins, ir.Load):
             self.gen_load(ins)
+        elif isinstance(ins, ir.CopyBlob):
+            dst = self.fetch_value(ins.dst)
+            src = self.fetch_value(ins.src)
+            self.emit(
+                f"rt.write_mem({dst}, rt.read_mem({src}, {ins.amount}))"
+            )
         elif isinstance(ins, ir.FunctionCall):
             args = ", ".join(self.fetch_value(a) for a in ins.arguments)
             callee = self._fetch_callee(ins.callee)
